@@ -39,12 +39,12 @@ fn apply_call(c: &mut Circuit, call: &str) -> q1tsim::error::Result<()>
     fn f(it: &mut std::str::SplitWhitespace) -> f64 { gate::hex_f64(it.next().expect("param")) }
     match kind
     {
-        "add_gate" => { let bits = list(&mut it); let g = gate::parse(&mut it); c.add_gate(g, &bits) },
+        "add_gate" => { let bits = list(&mut it); let g = parse_gate(&mut it); c.add_gate(g, &bits) },
         "add_conditional_gate" => {
             let control = list(&mut it);
             let target: u64 = it.next().unwrap().parse().unwrap();
             let bits = list(&mut it);
-            let g = gate::parse(&mut it);
+            let g = parse_gate(&mut it);
             c.add_conditional_gate(&control, target, g, &bits)
         },
         "measure_basis" => { let q = nat(&mut it); let cb = nat(&mut it); c.measure_basis(q, cb, basis(it.next().unwrap())) },
@@ -76,6 +76,49 @@ fn apply_call(c: &mut Circuit, call: &str) -> q1tsim::error::Result<()>
         "u3" => { let a = f(&mut it); let b = f(&mut it); let d = f(&mut it); let q = nat(&mut it); c.u3(a, b, d, q) },
         other => panic!("unknown call {}", other)
     }
+}
+
+/// A gate term.  A composite whose name starts with `fs` is built with `Composite::from_string` from the
+/// description its sub-gates spell (all parameter-free), and checked through `verif_ops` to be the object the
+/// request text describes; every other term goes through the shared `gate::parse` (`Composite::add_gate`).
+fn parse_gate(it: &mut std::str::SplitWhitespace) -> gate::Dyn
+{
+    let toks: Vec<&str> = it.clone().collect();
+    let (is_loop, off) = match toks.first() { Some(&"Comp") => (false, 1), Some(&"Loop") => (true, 3), _ => return gate::parse(it) };
+    if toks.len() <= off || !toks[off].starts_with("fs") { return gate::parse(it); }
+    // Comp name nb k { NAME m bits… }*k        |  Loop label iters name nb k { … }
+    let name = toks[off];
+    let nb: usize = toks[off + 1].parse().unwrap();
+    let k: usize = toks[off + 2].parse().unwrap();
+    let mut pos = off + 3;
+    let mut descs: Vec<String> = vec![];
+    let mut expect: Vec<(String, Vec<usize>)> = vec![];
+    for _ in 0..k
+    {
+        let g = toks[pos];
+        let m: usize = toks[pos + 1].parse().unwrap();
+        let bits: Vec<usize> = toks[pos + 2..pos + 2 + m].iter().map(|t| t.parse().unwrap()).collect();
+        descs.push(format!("{} {}", g, join(&bits)));
+        expect.push((g.to_string(), bits));
+        pos += 2 + m;
+    }
+    let comp = match q1tsim::gates::Composite::from_string(name, &descs.join("; "))
+    {
+        Ok(c) => c,
+        Err(_) => return gate::parse(it)      // not spellable for from_string: the same object through add_gate
+    };
+    use q1tsim::gates::Gate;
+    assert_eq!(comp.nr_affected_bits(), nb, "from_string width");
+    let got = comp.verif_ops();
+    assert_eq!(got.len(), expect.len(), "from_string ops");
+    for (a, b) in got.iter().zip(expect.iter()) { assert_eq!(a.1, b.1, "from_string bits"); }
+    for _ in 0..pos { it.next(); }
+    if is_loop
+    {
+        let iters: usize = toks[2].parse().unwrap();
+        gate::Dyn::Full(Box::new(q1tsim::gates::Loop::new(toks[1], iters, comp)))
+    }
+    else { gate::Dyn::Full(Box::new(comp)) }
 }
 
 fn show_build_err(e: &Error) -> String
@@ -178,8 +221,51 @@ fn gen_list(bound: usize, want: usize, rng: &mut SplitMix64) -> Vec<usize>
 
 fn list_text(l: &[usize]) -> String { if l.is_empty() { "0".to_string() } else { format!("{} {}", l.len(), join(l)) } }
 
+/// `Composite` / `Loop` terms of library gates, the sub-gates placed by `Composite::add_gate` (which validates
+/// nothing: local indices >= width, repeated, mis-sized) or spelled for `Composite::from_string` (name `fs…`)
+fn gen_composite(rng: &mut SplitMix64, clifford: bool) -> (String, usize)
+{
+    const FREE1: [&str; 11] = ["H", "X", "Y", "Z", "S", "Sdg", "T", "Tdg", "V", "Vdg", "I"];
+    const FREE2: [&str; 11] = ["CX", "CY", "CZ", "Swap", "CH", "CS", "CSdg", "CT", "CTdg", "CV", "CVdg"];
+    const CL1: [&str; 9] = ["H", "X", "Y", "Z", "S", "Sdg", "V", "Vdg", "I"];
+    const CL2: [&str; 4] = ["CX", "CY", "CZ", "Swap"];
+    let mut nb = 1 + rng.below(3) as usize;
+    let k = rng.below(4) as usize;
+    let mut subs: Vec<(String, Vec<usize>)> = vec![];
+    let mut free = true;
+    let mut fs_ok = k > 0;
+    for _ in 0..k
+    {
+        let (g, ar) = if clifford { if rng.below(3) == 0 { (rng.pick(&CL2).to_string(), 2) } else { (rng.pick(&CL1).to_string(), 1) } }
+            else
+            {
+                match rng.below(8)
+                {
+                    0 => { let reg = gate::registry(rng); let (g, a) = rng.pick(&reg).clone(); free = free && !g.contains(' '); (g, a) },
+                    1 | 2 => (rng.pick(&FREE2).to_string(), 2),
+                    3 => ("CCX".to_string(), 3),
+                    _ => (rng.pick(&FREE1).to_string(), 1)
+                }
+            };
+        let r = rng.below(100);
+        let bits: Vec<usize> = if r < 64 && nb >= ar { let mut all: Vec<usize> = (0..nb).collect(); rng.shuffle(&mut all); all.truncate(ar); all }
+            else if r < 78 { (0..ar).map(|i| if i == 0 { nb + rng.below(2) as usize } else { rng.below(nb as u64) as usize }).collect() }   // index >= width
+            else if r < 88 && ar >= 2 { let b = rng.below(nb as u64) as usize; vec![b; ar] }                                             // repeated
+            else if r < 94 { fs_ok = false; (0..ar + 1).map(|i| i % nb).collect() }                                                      // one operand too many
+            else { fs_ok = false; (0..ar.saturating_sub(1)).map(|i| i % nb).collect() };                                                 // one too few
+        subs.push((g, bits));
+    }
+    let use_fs = free && fs_ok && rng.below(3) == 0;
+    if use_fs { nb = subs.iter().flat_map(|s| s.1.iter()).max().map(|m| m + 1).unwrap_or(nb); }
+    let name = format!("{}{}", if use_fs { "fs" } else { "c" }, rng.below(100));
+    let mut body = format!("{} {} {}", name, nb, subs.len());
+    for (g, bits) in subs.iter() { body += &format!(" {} {}{}", g, bits.len(), if bits.is_empty() { String::new() } else { format!(" {}", join(bits)) }); }
+    if rng.below(5) < 2 { (format!("Loop l{} {} {}", rng.below(10), rng.below(5), body), nb) } else { (format!("Comp {}", body), nb) }
+}
+
 fn gen_gate(rng: &mut SplitMix64, clifford: bool) -> (String, usize)
 {
+    if rng.below(8) == 0 { return gen_composite(rng, clifford); }
     if clifford
     {
         let c1 = ["H", "X", "Y", "Z", "S", "Sdg", "V", "Vdg", "I"];
@@ -382,6 +468,13 @@ fn macro_stream(out: &mut Out)
     mcase!(out, names, "x", 2, 2, "h 0 ; x 9 ; h 1", n, { h(ev(&n, 0)); x(ev(&n, 9)); h(ev(&n, 1)); });
     mcase!(out, names, "y", 2, 2, "h 0 ; y 9 ; h 1", n, { h(ev(&n, 0)); y(ev(&n, 9)); h(ev(&n, 1)); });
     mcase!(out, names, "z", 2, 2, "h 0 ; z 9 ; h 1", n, { h(ev(&n, 0)); z(ev(&n, 9)); h(ev(&n, 1)); });
+    mcase!(out, names, "", 2, 2, "h 0 ; peek_basis 0 9 Z ; x 1", n, { h(ev(&n, 0)); peek_basis(0, ev(&n, 9), Basis::Z); x(ev(&n, 1)); });
+    mcase!(out, names, "", 2, 2, "h 0 ; measure_basis 9 0 X ; x 1", n, { h(ev(&n, 0)); measure_basis(ev(&n, 9), 0, Basis::X); x(ev(&n, 1)); });
+    mcase!(out, names, "", 2, 2, "h 0 ; peek_all_basis 2 0 9 Z ; x 1", n, { h(ev(&n, 0)); peek_all_basis(&[0, ev(&n, 9)], Basis::Z); x(ev(&n, 1)); });
+    mcase!(out, names, "", 2, 2, "h 0 ; add_conditional_gate 2 0 7 3 2 0 1 CX ; x 1", n,
+        { h(ev(&n, 0)); add_conditional_gate(&[0, ev(&n, 7)], 3, CX::new(), &[0, 1]); x(ev(&n, 1)); });
+    mcase!(out, names, "", 2, 2, "h 0 ; add_conditional_gate 1 0 1 2 0 9 CX ; x 1", n,
+        { h(ev(&n, 0)); add_conditional_gate(&[0], 1, CX::new(), &[0, ev(&n, 9)]); x(ev(&n, 1)); });
     // the unit builder between good calls; an all-good invocation; a failing first / last call; two failing calls;
     // zero-width registers
     mcase!(out, names, "reset_all", 2, 2, "h 0 ; reset_all ; x 1", n, { h(ev(&n, 0)); reset_all(); x(ev(&n, 1)); });
@@ -411,17 +504,21 @@ fn run_sequence(out: &mut Out, rng: &mut SplitMix64, nq: usize, nc: usize, calls
         let (_, mut fp) = exports(&circuit);
         for call in calls.iter()
         {
+            let n0 = circuit.verif_nr_ops();
             let r = { let c = AssertUnwindSafe(&mut circuit); catch_unwind(move || { let AssertUnwindSafe(c) = c; apply_call(c, call) }).ok() };
             let (_, fp2) = exports(&circuit);
+            let n1 = circuit.verif_nr_ops();
+            // a failed call: the number of operations (hook) AND the three exports are as before
+            let same = if fp2 == fp && n1 == n0 { "unchanged" } else { "CHANGED" };
             match r
             {
-                None => results.push(format!("panic {}", if fp2 == fp { "unchanged" } else { "CHANGED" })),
-                Some(Ok(())) => { results.push("ok".to_string()); nops += 1; },
-                Some(Err(e)) => results.push(format!("{} {}", show_build_err(&e), if fp2 == fp { "unchanged" } else { "CHANGED" }))
+                None => results.push(format!("panic {}", same)),
+                Some(Ok(())) => { results.push(if n1 == n0 + 1 { "ok".to_string() } else { format!("ok-but-ops-{}-to-{}", n0, n1) }); nops += 1; },
+                Some(Err(e)) => results.push(format!("{} {}", show_build_err(&e), same))
             }
             fp = fp2;
         }
-        out.case(&format!("build {}", head), &results.join(" ; "));
+        out.case(&format!("build {}", head), &format!("{} | nops {}", results.join(" ; "), circuit.verif_nr_ops()));
 
         // exports
         let (cls, _) = exports(&circuit);
@@ -438,7 +535,77 @@ fn run_sequence(out: &mut Out, rng: &mut SplitMix64, nq: usize, nc: usize, calls
             let ro = if o.starts_with("panic") { "skipped".to_string() } else { run(out, &head, &mut circuit, nq, shots, rng.next(), None, nops) };
             outcomes.push(o); outcomes.push(ro);
         }
-        out.case(&format!("pair {} | {} | v {} | rv {} | s {} | rs {}", head, shots, outcomes[0], outcomes[1], outcomes[2], outcomes[3]), "ok");
+        // the same object once more on the vector representation: execute after whatever the earlier runs left behind
+        let v2 = run(out, &head, &mut circuit, nq, shots, rng.next(), Some("vector"), nops);
+        out.case(&format!("pair {} | {} | v {} | rv {} | s {} | rs {} | v2 {}", head, shots, outcomes[0], outcomes[1], outcomes[2], outcomes[3], v2), "ok");
+}
+
+/// Sibling methods with the SAME (boundary) arguments, and rare operand shapes: descending qubit lists, bits 63 / 64,
+/// registers of exactly 64 classical bits, control lists of exactly 64 and 65 bits.
+fn sibling_stream(out: &mut Out, rng: &mut SplitMix64)
+{
+    let n = if thorough() { 400 } else { 90 };
+    let ang = fbits(0.75);
+    for i in 0..n
+    {
+        let nq = [0usize, 1, 2, 3, 3][rng.below(5) as usize];
+        let nc = [0usize, 1, 3, 63, 64, 64, 65][rng.below(7) as usize];
+        let qs = [0usize, nq.saturating_sub(1), nq, nq + 1, usize::MAX];
+        let cs = [0usize, nc.saturating_sub(1), nc, nc + 1, 62, 63, 64, 65];
+        let q = *rng.pick(&qs);
+        let c = *rng.pick(&cs);
+        let b = gen_basis(rng);
+        let shots = [0usize, 1, 1, 2, 3][rng.below(5) as usize];
+        let calls: Vec<String> = match i % 5
+        {
+            // (qubit, classical bit) siblings
+            0 => vec![format!("measure {} {}", q, c), format!("peek {} {}", q, c), format!("measure_x {} {}", q, c), format!("peek_x {} {}", q, c),
+                      format!("measure_y {} {}", q, c), format!("peek_y {} {}", q, c), format!("measure_z {} {}", q, c), format!("peek_z {} {}", q, c),
+                      format!("measure_basis {} {} {}", q, c, b), format!("peek_basis {} {} {}", q, c, b)],
+            // classical bit list siblings
+            1 => {
+                let l = match rng.below(6)
+                {
+                    0 => (0..nq).map(|k| (nc.max(1) - 1).saturating_sub(k)).collect::<Vec<usize>>(),     // descending from the top bit
+                    1 => vec![c; nq.max(1)],
+                    2 => (0..nq).map(|k| if k == 0 { c } else { k.min(nc.max(1) - 1) }).collect(),
+                    _ => gen_list(nc, nq, rng)
+                };
+                let t = list_text(&l);
+                vec![format!("measure_all {}", t), format!("peek_all {}", t), format!("measure_all_basis {} {}", t, b), format!("peek_all_basis {} {}", t, b)]
+            },
+            // single qubit siblings
+            2 => vec![format!("reset {}", q), format!("h {}", q), format!("x {}", q), format!("y {}", q), format!("z {}", q), format!("s {}", q),
+                      format!("sdg {}", q), format!("rx {} {}", ang, q), format!("ry {} {}", ang, q), format!("rz {} {}", ang, q),
+                      format!("u1 {} {}", ang, q), format!("u2 {} {} {}", ang, ang, q), format!("u3 {} {} {} {}", ang, ang, ang, q),
+                      format!("add_gate 1 {} H", q), format!("add_conditional_gate 0 0 1 {} H", q), format!("barrier 1 {}", q),
+                      format!("cx {} {}", q, 0), format!("cx {} {}", 0, q), format!("add_gate 2 {} 0 CX", q)],
+            // qubit list siblings, incl. descending lists
+            3 => {
+                let (g, k) = if rng.coin() { ("CCX".to_string(), 3usize) } else { (rng.pick(&["CX", "CZ", "Swap", "CH"]).to_string(), 2) };
+                let l = match rng.below(5)
+                {
+                    0 => (0..k).map(|j| nq.saturating_sub(1 + j)).collect::<Vec<usize>>(),                 // descending
+                    1 => (0..k).map(|j| if j + 1 == k { q } else { j }).collect(),
+                    _ => gen_list(nq, k, rng)
+                };
+                let t = list_text(&l);
+                let ctl = if nc > 0 { format!("1 {}", rng.below(nc as u64)) } else { "0".to_string() };
+                vec![format!("add_gate {} {}", t, g), format!("add_conditional_gate {} 1 {} {}", ctl, t, g), format!("barrier {}", t),
+                     format!("add_conditional_gate 1 {} 1 {} {}", c, t, g)]
+            },
+            // control lists of exactly nc bits (64 and 65 included), both orders; the bit 63 / 64 boundary
+            _ => {
+                let mut all: Vec<usize> = (0..nc).collect();
+                if rng.coin() { all.reverse(); }
+                let g = if nq >= 1 { "1 0 X".to_string() } else { "0 X".to_string() };
+                vec![format!("add_conditional_gate {} {} {}", list_text(&all), [0u64, 1, u64::MAX][rng.below(3) as usize], g),
+                     format!("measure {} {}", 0, c), format!("add_conditional_gate 1 {} 1 {}", c, g), format!("peek {} {}", 0, c),
+                     format!("add_conditional_gate 2 {} {} 1 {}", c, c.saturating_sub(1), g)]
+            }
+        };
+        run_sequence(out, rng, nq, nc, &calls, shots);
+    }
 }
 
 fn main()
@@ -459,6 +626,7 @@ fn main()
         return;
     }
     macro_stream(&mut out);
+    sibling_stream(&mut out, &mut rng);
 
     let nseq = if thorough() { 2500 } else { 420 };
     for iseq in 0..nseq
